@@ -67,7 +67,7 @@ def extra_names(h, sp_reads):
 def run(tier, seed, replay=None):
     res = C.Result("C06", tier, seed)
     res.rule = ("histories of add / replace / remove / rename / compact / flush on real archives (V1..V4, with listfile, 16-slot hash table, names that collide "
-                "on their home slot, in one group next to occupied slots and in further groups with never-used slots on both sides): every history of length <=2 over a 3-name alphabet (quick; <=3 thorough) plus seeded histories of up to 40 operations incl. more "
+                "on their home slot, in one group next to occupied slots and in further groups with never-used slots on both sides): every history of length <=2 over a 3-name alphabet (<=3 thorough), every history of length 4 over {add second, add third, remove first, replace second} on chains of three colliding names, plus seeded histories of up to 40 operations incl. more "
                 "additions than free slots; each history runs in its own process under a 10 s watchdog, then the archive is closed, reopened and every name read; "
                 "per-operation outcomes and the final contents are compared with the extracted specification map; non-trivial = history has >=2 operations; distinct = distinct history")
     res.assumptions = ["crash-free execution (crashes during modification are not part of this property; C12 covers build/compact only)",
@@ -114,8 +114,11 @@ def run(tier, seed, replay=None):
     hist = [[]]
     for L in ((1, 2, 3) if big else (1, 2)):
         hist += [list(t) for t in itertools.product(alpha, repeat=L)]
-    if not big:
-        hist = hist[:1] + [h for k, h in enumerate(hist[1:]) if len(h) == 1 or k % 3 == 0]
+    # (every history of length <= 2 runs in the quick tier too: sampling them left detections to the luck of the random histories)
+    # chains of three colliding names: every history of length 4 over {add second, add third, remove first, replace second}
+    for g in [coll[:3]] + [g for g in groups[:1]]:
+        four = [op_add(g[1], 1), op_add(g[2], 2, "2"), ("r", C.hexs(g[0].encode())), op_add(g[1], 5, "0", "0", "1")]
+        hist += [list(t) for t in itertools.product(four, repeat=4)]
     # the same short histories on collision groups whose probe chains have never-used slots on both sides
     for gi, g in enumerate(groups):
         ag = []
